@@ -51,7 +51,7 @@ pub fn judge(ctx: &Ctx, l: &mut Local, b: &Base, base_r: &R, key: Prayer, k: i64
     p.round_seconds = RoundSeconds::None;
     p.minutes.insert(key, k as f64 / 60.0);
     let p = p;
-    let r0 = prayer_times_dt(&p, b.site.loc(), b.date, None);
+    let r0 = pt(&p, b.site.loc(), b.date, None);
     l.evals += 1;
     let case = |mode: RoundSeconds| {
         let mut q = p.clone();
@@ -77,7 +77,7 @@ pub fn judge(ctx: &Ctx, l: &mut Local, b: &Base, base_r: &R, key: Prayer, k: i64
     for mode in [RoundSeconds::NormalRounding, RoundSeconds::SpecialRounding, RoundSeconds::AggressiveRounding] {
         let mut pm = p.clone();
         pm.round_seconds = mode;
-        let r = prayer_times_dt(&pm, b.site.loc(), b.date, None);
+        let r = pt(&pm, b.site.loc(), b.date, None);
         l.evals += 1;
         for pr in SEQ7 {
             match (r0[&pr], r[&pr]) {
@@ -144,7 +144,7 @@ pub fn explore(ctx: &Ctx) {
             }
         }
     }
-    let base_rs: Vec<R> = bs.iter().map(|b| prayer_times_dt(&b.params, b.site.loc(), b.date, None)).collect();
+    let base_rs: Vec<R> = bs.iter().map(|b| pt(&b.params, b.site.loc(), b.date, None)).collect();
     par_jobs(ctx, &jobs, |(bi, key, a, z), l| {
         for k in *a..=*z {
             judge(ctx, l, &bs[*bi], &base_rs[*bi], *key, k);
@@ -166,7 +166,7 @@ pub fn replay(ctx: &Ctx, _clause: &str, case: &Value) {
     bp.minutes.insert(key, 0.0);
     bp.round_seconds = RoundSeconds::None;
     let b = Base { site: c.site, date: c.date, params: bp };
-    let base_r = prayer_times_dt(&b.params, b.site.loc(), b.date, None);
+    let base_r = pt(&b.params, b.site.loc(), b.date, None);
     judge(ctx, &mut l, &b, &base_r, key, k);
     println!("  result: {}", fmt_r(&c.run()));
 }
